@@ -15,8 +15,8 @@ from vlib import log
 from . import asmcommon as ac
 
 PID = "C12"
-WORKLOADS_Q = ["W1", "W2", "W3", "W6"]
-WORKLOADS_T = ["W1", "W2", "W3", "W4", "W5", "W6"]
+WORKLOADS_Q = ["W1", "W2", "W3", "W6", "W7"]
+WORKLOADS_T = ["W1", "W2", "W3", "W4", "W5", "W6", "W7"]
 
 
 def parse_races(stderr):
